@@ -86,6 +86,7 @@ class ModuleInfo:
         self.tree = ast.parse(source, filename=relpath)
         self.digest = hashlib.sha256(source.encode()).hexdigest()
         self.imports = {}  # local name -> dotted
+        self.globals = {}  # module level variables: name -> value AST
         self.classes = {}
         self.functions = {}
         self.lines = source.split("\n")
@@ -192,6 +193,10 @@ class Program:
                 fi = FuncInfo(st, mi)
                 self._scan_nested(fi)
                 mi.functions[st.name] = fi
+            elif isinstance(st, ast.Assign):
+                for t in st.targets:
+                    if isinstance(t, ast.Name):
+                        mi.globals[t.id] = st.value
 
     def _scan_nested(self, fi):
         for n in ast.walk(fi.node):
